@@ -382,6 +382,9 @@ def run(rep, tier):
         # 'a number whose magnitude overflows double is rejected': shared with C04 clause (e)
         from . import c04
         c04.clause_e(facts, rep)
+        # white-space skipping of the padded parse: cached bitmap mask (shared with C11)
+        from . import c11 as _c11
+        _c11.clause_shift(facts, rep, {'K1': ('::avx2::',), 'K3': ('::sse::',), 'K4': ('::avx2::', '::sse::'), 'K7': ('::avx2::',)}[cfg])
     if tier == 'quick':
         # arch-specific source of the SSE configuration (white-space tables, padding vs. load widths): cheap, every run
         facts3 = get_facts('K3')
